@@ -194,6 +194,30 @@ PROPS["C12"] = {
     "thorough": {"cases": 400000, "floor": 80000, "time_budget": 3000},
 }
 
+PROPS["C05"] = {
+    "worker": "c05", "variant": "chk", "level": "exploration",
+    "rule": ("case = multi-frame lossless Modular stream (non-XYB, enum sRGB/grey so no colour transform interferes) with 1..8 frames of "
+             "types Regular / ReferenceOnly / SkipProgressive, durations 0 and >0 (with and without animation header), save_as_reference "
+             "0..3, per-channel source 0..3 (incl. never-written slots), crops inside / partly outside / wholly outside / larger than the "
+             "canvas with signed offsets, per-channel blend info (Replace, Add, Mul, Blend, MulAdd; clamp; alpha channel choice among several; "
+             "premultiplied or straight alpha), 5..16-bit samples incl. values outside [0,1]; keyframes requested in random order with "
+             "repeats, pool none / rayon. Oracle: reference compositor in f64 over the encoder's per-frame samples; every sample of every "
+             "channel of every keyframe within 1e-5*max(1,|x|) plus a propagated f32 error bound for ill-conditioned straight-alpha "
+             "divisions; repeated renders bit-identical. signature = (frame-type sequence, blend-mode multiset, crop classes, alpha config); "
+             "non-trivial iff >= 2 frames and some non-Replace mode or crop"),
+    "assumptions": [
+        "extra-channel `source` presence is only generated where both readings of the condition agree (DESIGN.md section 6)",
+        "ReferenceOnly frames are canvas-sized when used as blend sources (a smaller reference as background is invalid)",
+        "patches are not generated yet; canvases <= 64 px (quick) / 300 px multi-group (thorough)",
+        "samples whose model error bound is unbounded (alpha mix within 1e-6 of 0) are skipped and counted",
+    ],
+    "level_text": "exploration: thousands of random frame sequences per run compared sample by sample with an independent compositor",
+    "level_note": "trusted: jxlgen::anim compositor + Modular encoder, comparison code in c05.rs",
+    "technique": "runtime differential monitor: independent f64 compositor vs real renderer on generated multi-frame streams",
+    "quick": {"cases": 12000, "floor": 3000, "time_budget": 240},
+    "thorough": {"cases": 600000, "floor": 100000, "time_budget": 3000},
+}
+
 ALL = ["C%02d" % i for i in range(1, 21)]
 HOOK_COMMITS = ["27cc801"]
 NOT_APPLICABLE = {p: "check not built yet in this session (work in progress; see DESIGN.md section 9 for order)" for p in ALL if p not in PROPS}
